@@ -211,7 +211,16 @@ def rule_enter_sites(ctx: Ctx, kinds: Set[str], clause: str):
         call: ast.Call = s.node  # type: ignore[assignment]
         # find the call on the function's paths
         found = False
-        for p in flow.paths(fn.node):
+        all_paths_ = flow.paths(fn.node)
+
+        def _applied(p_, ev_):
+            recv_d_ = flow.dump(ev_.call.func.value) if isinstance(ev_.call.func, ast.Attribute) else None
+            return any(not e2.deferred and isinstance(e2.call, ast.Call) and isinstance(e2.call.func, ast.Attribute) and e2.call.func.attr == "enter"
+                       and flow.dump(e2.call.func.value) == recv_d_ and e2.call.args and e2.raw is not call for e2 in p_.events)
+
+        # a call inside a lambda is judged on a path where the lambda is applied, when there is one
+        prefer = [p_ for p_ in all_paths_ if any(ev_.raw is call and ev_.deferred and _applied(p_, ev_) for ev_ in p_.events)]
+        for p in (prefer or all_paths_):
             for ev in p.events:
                 if ev.raw is not call:
                     continue
